@@ -680,7 +680,7 @@ fn run_for_panic<D: Store + Mk>(parsed: &ParseResult, ntok: usize, hk: HostK, ma
     };
     a.m.shadow_on = false;
     a.m.max_instr = usize::MAX;
-    a.m.max_data = a.d0 + 60_000;
+    a.m.max_data = a.d0 + 10_000;
     // one step may walk a range of two billion positions (a slice with a huge range cast to a list): the run is
     // cut off after a bounded number of store calls, which is a budget of this harness, not a verdict
     a.m.max_ops = a.m.ops + 3_000_000;
